@@ -1628,10 +1628,20 @@ def foreign_edits(xsd, kind, p, akeys, elems, rng, quick):
                 return None
         return q
 
-    def attr_edits(path, q, only=None, prio=1):
+    def elem_at(path):
+        e = anchor
+        for i, t in enumerate(path.split("/") if path else []):
+            if t[:1] == "~" or e is None:
+                return None
+            e = xsd.child(e, t, kind.nv and i == 0)
+        return e
+
+    def attr_edits(path, q, only=None, prio=1, enum_only=False):
         for name, ty, _req in xsd.attrs(q) if q else []:
             shown = clark_show(name)
             if only is not None and shown not in only:
+                continue
+            if enum_only and not (xsd.is_enum(ty) or ty == ("xsd", "boolean")):
                 continue
             vals = xsd.samples(ty)
             if xsd.is_enum(ty):
@@ -1676,6 +1686,16 @@ def foreign_edits(xsd, kind, p, akeys, elems, rng, quick):
         add(3, "%s present" % pth_, ("elem", pth_))
         # 4: every attribute the schema declares for it
         attr_edits(pth_, q, prio=4)
+        # 5: the enumeration / boolean attributes of the siblings that exist next to it in this object: a setting of the
+        #    same parent that a getter or setter could (wrongly) start to depend on (grouping next to overlap, ...)
+        pe = elem_at(par)
+        if pe is not None:
+            for sib in [c for c in pe if isinstance(c.tag, str)]:
+                st = ptag(sib.tag)
+                if st == tag or ":" not in st:
+                    continue
+                sp = (par + "/" + st) if par else st
+                attr_edits(sp, elem_type(sp), prio=5, enum_only=True)
     return out
 
 
@@ -1711,7 +1731,8 @@ def select_edits(eds, rng, quick, cap=14):
     room = max(3, cap - len(out))
     out += core if len(core) <= room else rng.sample(core, room)
     rest = [(d, [e]) for pr, d, e in eds if pr == 4]
-    return out + rng.sample(rest, min(1, len(rest)))
+    sibs = [(d, [e]) for pr, d, e in eds if pr == 5]
+    return out + rng.sample(rest, min(1, len(rest))) + rng.sample(sibs, min(5, len(sibs)))
 
 
 def edit_pairs(eds, rng, n):
